@@ -38,6 +38,37 @@ def cover_rule(ctx, res, rule):
         return
     vt = value_type(P)
     names = [v["name"] for v in vt["variants"]]
+    # the buffer-less entry point Value::canonicalize must do the same: it either hands the value itself to
+    # canonicalize_with (today), or does per variant what canonicalize_with must do
+    try:
+        v0 = shape.find_inst(P, r"^json_syntax::Value::canonicalize$")
+        for vi, vn in enumerate(names):
+            sh = shape.Shape(P)
+            sh.cut(r"^json_syntax::Value::canonicalize_with$", "rec")
+            sh.cut(r"^json_syntax::Object::canonicalize(_with)?$", "obj")
+            payload = [sh.st.new_obj(AVec((Top(None, "item0"), Top(None, "item1")), "array")) if vn == "Array" else Top(f["ty"], "payload") for f in vt["variants"][vi]["fields"]]
+            me = sh.st.new_obj(Agg(vt["id"], vi, payload))
+            meref = Ref(("H", me.id), ())
+            key = "%s/Value::canonicalize/%s" % (rule, vn)
+            outs = sh.run(v0, [meref])
+            ok = len(outs) == 1 and outs[0].outcome[0] == "return"
+            if ok:
+                ev = [e for e in shape.events(outs[0]) if e[0] in ("rec", "obj")]
+                deleg = len(ev) == 1 and ev[0][0] == "rec" and ev[0][1][0] == meref
+                if not deleg:
+                    if vn == "Array":
+                        ok = [e[0] for e in ev] == ["rec", "rec"] and [e[1][0] for e in ev] == [Ref(("H", payload[0].id), (("el", 0),)), Ref(("H", payload[0].id), (("el", 1),))]
+                    elif vn == "Object":
+                        ok = [e[0] for e in ev] == ["obj"]
+                    elif vn == "Number":
+                        ok = False  # a number must go through canonicalize_with's number arm: only the delegating form is decided here
+                    else:
+                        ok = not ev
+            res.ob(ok, rule, key, "Value::canonicalize on %s does not canonicalise the value the way canonicalize_with does (%d paths, events %r)" % (
+                vn, len(outs), [[(e[0], repr(e[1][0])[:40]) for e in shape.events(o) if e[0] in ("rec", "obj")] for o in outs][:3]),
+                sample={"unit": "Value::canonicalize", "variant": vn})
+    except Undecided as e:
+        res.violation(rule, rule + "/Value::canonicalize/undecided", "while interpreting: %s" % e)
     for vi, vn in enumerate(names):
         sh = shape.Shape(P)
         sh.cut(r"::Number::canonical_with$", "canonical", ret=lambda it, st, c, a: Top(None, "canonical-number"))
